@@ -42,6 +42,12 @@ def plan(tier):
                 init = [(i, s, clocks) for i, s in ((0, st0), (1, st1)) if s]
                 out.append((C.cfg(2, edges, ['ok', 'ok'], 2, init=init), 1))
                 out.append((C.cfg(2, edges, ['ok', 'ok'], 1, init=init), 2))
+    # the master gives up (an earlier FAILED / SKIPPED entry of a task it has to look at) while tasks it has already queued are
+    # waiting or running: independent tasks, the stale entry on the one examined last, fewer workers than ready tasks
+    for n in (2, 3):
+        for sta in ('FAILED', 'SKIPPED'):
+            for wrk in (1, 2):
+                out.append((C.cfg(n, [], ['ok'] * n, wrk, init=[(n - 1, sta, False)]), 2 if n == 2 or tier == 'thorough' else 1))
     # 3-task graphs
     for edges in (C.FORK3HS, C.JOIN3HS, C.CHAIN3HS):
         out.append((C.cfg(3, edges, ['ok'] * 3, 2), 2 if tier == 'thorough' else 1))
